@@ -65,8 +65,10 @@ ASSUMPTIONS = [
     'the composed theorems (wellFormed_of_constructed, delivers_parsed_messages*) are about C03\'s code model of '
     'message.py (Msg/Message.lean) and, in the _c01 forms, C01\'s code model of marshal.py; those models are tied to '
     'the source by the checks of C03 / C01 and, for the composition, by the stream parsed-after-framing here',
-    'parsed-after-framing: the receiver holds no descriptors (`_receivedFDs == []`, no unix_fds header); what '
-    '`_receivedFDs[m.unix_fds:]` leaves behind is C05',
+    'parsed-after-framing: in the judged part the receiver holds no descriptors (`_receivedFDs == []`, no unix_fds '
+    'header); the sub-stream with pre-loaded descriptors compares `parseMessage(raw, _receivedFDs)` and the slice '
+    '`_receivedFDs[m.unix_fds:]` with the model only (S3) - how the list must evolve over a run is C05',
+    'the hooks return normally in the model (`recvRun`); raising / re-entering handlers: stream reentrant-delivery',
     'a hand-off case is not judged when the AUTHENTICATOR refused the handshake although it was handed its lines '
     '(authentication is C06 / C07); when lines are missing or altered the case is judged (the handshakes use '
     'well-formed lines and 32-hex-digit GUIDs)',
